@@ -148,6 +148,12 @@ class C04(Prop):
                 kind = rng.wpick([('simtime', 5), ('clock', 4), ('repeat', 1)])
                 if kind == 'clock':
                     cond = {'t': 'clock', 'rel': '=', 'thr': int(rm.clock_of(t, o))}
+                    if rng.chance(0.2):
+                        cond['once'] = True          # a single, timed trigger (repeat=False)
+                        if rng.chance(0.3):
+                            cond['first_day'] = 1
+                    elif rng.chance(0.1):
+                        cond['first_day'] = 1        # daily, from clock day 1 on
                 elif kind == 'repeat':
                     cond = {'t': 'simtime', 'rel': '=', 'thr': int(t), 'repeat': int(rng.pick([86400, 4 * hyd, 3 * hyd + 60, 7200]))}
                 else:
